@@ -88,6 +88,9 @@ func pickParams(rng *rand.Rand, big bool) bloomParams {
 		sizes = []int{4096, 20000, wire.MaxFilterLoadFilterSize}
 	}
 	ks := []uint32{1, 1, 2, 3, 5, 11, 50}
+	if big {
+		ks = []uint32{1, 2, 5, 11}
+	}
 	return bloomParams{size: sizes[rng.Intn(len(sizes))], k: ks[rng.Intn(len(ks))], tweak: tw, via: "LoadFilter"}
 }
 
